@@ -19,6 +19,7 @@ func Layout(t *rapid.T) fmtb.Layout {
 		FillerEvery:  rapid.SampledFrom([]int{0, 0, 3, 7}).Draw(t, "filler"),
 		ShuffleCells: rapid.Bool().Draw(t, "shuffle"),
 		Gaps:         rapid.IntRange(0, 3).Draw(t, "gaps") == 0,
+		AutoVacuum:   rapid.SampledFrom([]int{0, 0, 0, 1, 2}).Draw(t, "autovacuum"),
 	}
 }
 
